@@ -122,6 +122,7 @@ def run(ck):
     remainder_exemption(ck, prog)
     layer_count_rule(ck, prog)
     agreement(ck, prog)
+    remainder_sent(ck, prog)
     from . import width
     width.run(ck, prog, only=("FriProof", "FriProofLayer"), floor=3)   # the FRI proof of a legal schedule survives serialization
     ck.control("FriProver::build_layers does not clear the layers", "layers" not in clears(prog, bl))
@@ -312,3 +313,69 @@ def _is_div_update(f, b, i, s):
                 if la is not None and f.local_name(la) == "domain_size":
                     return True
     return False
+
+
+# ---- SENT: the remainder sent is the remainder committed ------------------------------------------------------------------------------
+
+COPY_ONLY = ("Clone::clone", "slice::to_vec", "ToOwned::to_owned", "Deref::deref", "DerefMut::deref_mut", "Into::into", "From::from", "Vec::as_slice",
+             "AsRef::as_ref", "Borrow::borrow", "slice::iter", "Iterator::cloned", "Iterator::copied", "Iterator::collect", "IntoIterator::into_iter",
+             "Vec::from", "Box::new", "box_assume_init_into_vec_unsafe", "Box::new_uninit", "mem::take", "mem::replace", "Vec::new", "Default::default")
+
+
+def remainder_sent(ck, prog, rule="SENT"):
+    """The verifier recomputes the hash of the remainder it receives and compares it with the commitment the prover absorbed. So (a) the
+    vector handed to `FriProof::new` by `FriProver::build_proof` must be the stored remainder polynomial itself — reached from the field
+    through copies only, never shortened, extended or edited on the way (seed C15-K: high-order zero coefficients trimmed after the
+    commitment was made: every honest proof of a polynomial of less than half the degree bound is rejected) — and (b) where the remainder
+    is stored, the value hashed for the commitment and the value stored are the same vector."""
+    ck.rule(rule, "the remainder placed in the FRI proof is the committed remainder polynomial itself: copied from the prover's state without "
+                  "modification, and the state holds the very vector whose hash was committed")
+    bp = prog.inl(prog.fn(FP + "::build_proof"), keep=tuple(f.id for f in prog.fns.values() if f.nname.endswith("proof::FriProof::new")))
+    ck.saw(bp)
+    g = flow(bp)
+    news = [(b, t) for b, t in bp.calls() if (callee_name(t) or "").endswith("FriProof::new") and len(t["args"]) >= 2]
+    if not news:
+        raise AnchorError("FriProver::build_proof does not call FriProof::new")
+    for b, t in news:
+        w = g.walk(ops=[t["args"][1]], at=(b, T), through=lambda tt: (callee_name(tt) or "").endswith(COPY_ONLY))
+        flds = {fl for a, fl in g.fields_in(w)}
+        calls = sorted({(callee_name(bp.term(n[1])) or "?") for n in w if n[0] == "c"})
+        foreign = [c for c in calls if not c.endswith(COPY_ONLY)]
+        ok = "remainder_poly" in flds and not foreign
+        ck.ob(rule, "build_proof:remainder-is-the-stored-one", ok,
+              "FriProver::build_proof hands FriProof::new the stored remainder polynomial, reached through copies only", loc=bp.loc(b, T),
+              detail=None if ok else (f"the vector is modified or produced by {[c.split('::')[-1] for c in foreign]} between the prover's state and the proof: "
+                                      "its hash no longer equals the commitment absorbed in the commit phase" if foreign else
+                                      "the vector does not originate in the field `remainder_poly`"))
+    # (b) the store site
+    bl = prog.inl(prog.fn(FP + "::build_layers"))
+    gl = flow(bl)
+    stores = []
+    for b, i, st in bl.assigns():
+        lhs = st.get("lhs") or {}
+        if any(isinstance(e, dict) and e.get("n") == "remainder_poly" for e in lhs.get("p", [])):
+            stores.append((b, i, st))
+    hashes = [(b, t) for b, t in bl.calls() if (callee_name(t) or "").endswith("ElementHasher::hash_elements")]
+    commits = [(b, t) for b, t in bl.calls() if (callee_name(t) or "").endswith("ProverChannel::commit_fri_layer")]
+    done = False
+    for sb, si, st in stores:
+        ops, places = gl._rv_ops(st["rv"])
+        ws = gl.walk(ops=ops, places=places, at=(sb, si), through=lambda tt: (callee_name(tt) or "").endswith(COPY_ONLY))
+        roots_s = {n for n in ws if n[0] == "c" and not (callee_name(bl.term(n[1])) or "").endswith(COPY_ONLY)}
+        for hb, ht in hashes:
+            # is this the hash that is committed?
+            if not any(("c", hb) in gl.walk(ops=[ct["args"][1]], at=(cb, T)) for cb, ct in commits if len(ct["args"]) > 1):
+                continue
+            wh = gl.walk(ops=[ht["args"][0]], at=(hb, T), through=lambda tt: (callee_name(tt) or "").endswith(COPY_ONLY))
+            roots_h = {n for n in wh if n[0] == "c" and not (callee_name(bl.term(n[1])) or "").endswith(COPY_ONLY)}
+            if not roots_s or not roots_h:
+                continue
+            done = True
+            ok = roots_s == roots_h
+            ck.ob(rule, "set_remainder:stored-is-the-hashed-one", ok,
+                  "the remainder stored in the prover's state and the vector whose hash is committed are produced by the same computation",
+                  loc=bl.loc(sb, si), detail=None if ok else
+                  f"stored value produced by {sorted((callee_name(bl.term(n[1])) or '?').split('::')[-1] for n in roots_s)}, hashed value by "
+                  f"{sorted((callee_name(bl.term(n[1])) or '?').split('::')[-1] for n in roots_h)}")
+    if not done:
+        ck.note(f"{rule}: the site that stores the remainder and commits its hash was not recognised; clause (b) is not decided")
